@@ -46,6 +46,10 @@ func c04Base(class string, seed uint64) *vfScenario {
 	if rng.IntN(4) == 0 {
 		sites &= int64(rng.IntN(32))
 	}
+	if multi {
+		// without f.map/f.loop the slicer's select coin (worker free vs cancelled) shows after a failure
+		sites |= 4
+	}
 	sc.Cfg["sites"] = sites
 	sc.Cfg["concr"] = int64(rng.IntN(2))
 	sc.Cfg["concw"] = int64(rng.IntN(2))
@@ -306,6 +310,7 @@ func c04Exec(r *vfRun) {
 	// Wait and Close must return
 	var waitErr, closeErr error
 	waited := false
+	readerAlive := false
 	closer := vfSpawnTask(sim, 98, 2, func(i int) {
 		if i == 0 {
 			sim.mu.Lock()
@@ -317,6 +322,11 @@ func c04Exec(r *vfRun) {
 			}
 		} else {
 			closeErr = c.Close()
+			sim.mu.Lock()
+			if srv.s2c.waiter != nil {
+				readerAlive = true
+			}
+			sim.mu.Unlock()
 		}
 	})
 	sim.run(closer.finished)
@@ -325,6 +335,10 @@ func c04Exec(r *vfRun) {
 		return
 	}
 	_ = closeErr
+	if readerAlive {
+		r.fail("C04/goroutine-leak", "recv-alive-when-Close-returned", "Close returned while the receiver goroutine was still blocked reading the link")
+		return
+	}
 	sim.run(nil)
 	if srv.c2s.closes == 0 {
 		r.fail("C04/writer-not-closed", "close", "Close returned but the client never closed its writer end")
